@@ -10,7 +10,7 @@
 
 static int thorough;
 
-typedef struct { int ver, kx; uint16_t suite; const char *prot; } pcfg_t;
+typedef struct { int ver, kx; uint16_t suite; const char *prot; int early; } pcfg_t;
 static const pcfg_t pcfgs[] = {
     { V_TLS11, KX_PSK, TLS_PSK_WITH_AES_128_CBC_SHA, "cbc-sha1" },
     { V_TLS11, KX_PSK, TLS_PSK_WITH_AES_256_CBC_SHA, "cbc256-sha1" },
@@ -26,6 +26,9 @@ static const pcfg_t pcfgs[] = {
     { V_TLS13, KX_13_PSK, TLS_AES_128_GCM_SHA256, "13-gcm128" },
     { V_TLS13, KX_13_RSA, TLS_AES_256_GCM_SHA384, "13-gcm256" },
     { V_TLS13, KX_13_RSA, TLS_CHACHA20_POLY1305_SHA256, "13-chacha" },
+    /* the client offered 0-RTT data which the server REJECTED (external PSK) and skipped: the licence to skip
+       undecryptable records must have ended with the handshake */
+    { V_TLS13, KX_13_PSK, TLS_AES_128_GCM_SHA256, "13-gcm128-after-rejected-0rtt", 1 },
 };
 #define NPCFG ((int) (sizeof(pcfgs) / sizeof(pcfgs[0])))
 
@@ -351,7 +354,7 @@ static int setup_group(gctx_t *g)
     int k, recv = 1 - g->dir;
     static unsigned char msg[40100];
     memset(&c, 0, sizeof(c));
-    c.ver = pc->ver; c.kx = pc->kx; c.suite = pc->suite;
+    c.ver = pc->ver; c.kx = pc->kx; c.suite = pc->suite; c.early_data = pc->early; c.early_send = pc->early;
     g->dtls = ver_is_dtls(pc->ver);
     g->hdr = g->dtls ? 13 : 5;
     if (world_init(&g->w, &c) < 0 || world_handshake(&g->w) != 0)
@@ -359,6 +362,16 @@ static int setup_group(gctx_t *g)
         return -1;
     }
     world_pump(&g->w, 50);
+    if (pc->early)
+    {
+        /* the rejected 0-RTT data was legitimately not delivered (the client is told so): the stream under test starts here */
+        buf_clear(&g->w.s[0].submitted); buf_clear(&g->w.s[1].submitted);
+        buf_clear(&g->w.s[0].delivered); buf_clear(&g->w.s[1].delivered);
+        if (g->w.s[1].n_deliveries != 0)
+        {
+            return -5;   /* the configuration is meant to have its early data rejected */
+        }
+    }
     /* reflection candidate: a record sent by the receiver */
     world_app_send(&g->w, recv, (const unsigned char *) "reflect-me-0123456789", 21);
     {
